@@ -212,7 +212,8 @@ def impl_main(payload):
                     with np.errstate(all="ignore"):
                         v64 = float(c01.ref_eval(rows, X[j], cvals))
                         v80 = c01.ref_eval(rows, X[j], cvals, dtype=np.longdouble)
-                    w[j] = bool(np.isfinite(v64) and np.isfinite(v80) and abs(np.longdouble(v64) - v80) <= 1e-11 * (1 + abs(v80)))
+                    # relative agreement: tiny values (products with constants like 1e-17) are as well conditioned as any other
+                    w[j] = bool(np.isfinite(v64) and np.isfinite(v80) and abs(np.longdouble(v64) - v80) <= 1e-11 * abs(v80))
                 except Exception:  # noqa
                     w[j] = False
             return w
@@ -238,7 +239,7 @@ def impl_main(payload):
             # compared where the reference is finite and well conditioned (simplification may in addition define points where
             # the original is undefined: C03); real-number equality, so a tolerance
             sel = np.isfinite(refv) & well
-            if gotv.shape == refv.shape and np.allclose(refv[sel], gotv[sel], rtol=1e-8, atol=1e-8, equal_nan=True):
+            if gotv.shape == refv.shape and np.allclose(refv[sel], gotv[sel], rtol=1e-8, atol=0.0, equal_nan=True):
                 continue
             del accepted[:]
             literals = len(spm.eq_string_to_command_array_and_constants(s2)[1])
